@@ -28,6 +28,8 @@ Judge(e) ==
    ELSE {})
   \cup (IF ~e.outer_exact_subsequence THEN {"C11:answers-altered"} ELSE {})
   \cup (IF e.collides # e.collides_body THEN {"C11:collides-differs-from-body-verdict"} ELSE {})
+  \cup (IF ~e.details_same THEN {"C11:collision-details-differ-from-body-report"} ELSE {})
+  \cup (IF ~e.near_same THEN {"C11:near-differs-from-body-report"} ELSE {})
   \* with collision checking switched off (CheckMode::NoCheck) nothing collides and nothing is filtered
   \cup (IF ~e.checking /\ (\E k \in 1..Len(e.collides) : e.collides[k]) THEN {"C11:collision-reported-although-checking-is-off"} ELSE {})
   \cup (IF ~e.checking /\ e.outer # e.inner THEN {"C11:answers-filtered-although-checking-is-off"} ELSE {})
